@@ -32,7 +32,11 @@
      sample order with the documented update rule, learning rate, regularisation, range clamping
      and trailing-feature estimate"
         -> funksvd_is_featurewise_sgd (every arithmetic instance: binary64 and Q), sgd_rule,
-           trailing_estimate, clamps_agree
+           trailing_estimate, clamps_agree; "over the seeded sample order": the samples are the stored ratings
+           visited in the order drawn from the generator the seed stands for, whichever way the seed reaches the
+           training (in the options as integer / sequence / SeedSequence / Generator / BitGenerator, or through
+           lenskit.random.set_global_rng with no rng in the options): every stored rating exactly once per pass
+        -> seeded_order_visits_every_sample_once, seeded_training_is_featurewise_sgd, seeded_agree_checks
    Contract, not a theorem: lenskit.math.solve.solve_cholesky returns a solution of A x = y
    (hypothesis solver_exact_on; its output is checked through the residual on every case).
    Not a theorem: that BLAS/torch evaluate the Gram products as written, that the TorchScript
@@ -40,8 +44,8 @@
    covered by the correspondence runs (thorough tier includes > 50-row trainings). *)
 From mathcomp Require Import all_ssreflect all_algebra.
 From LK Require Proofs.C10_normal_eq.
-From Coq Require Import ZArith QArith List.
-From LK Require Import Lib.QLib Model.C10_als Model.C10_funksvd Model.C10_history Proofs.C10_ls Proofs.C10_als_proofs Proofs.C10_funksvd_proofs Proofs.C10_history_proofs.
+From Coq Require Import ZArith QArith List Permutation.
+From LK Require Import Lib.QLib Model.C10_als Model.C10_funksvd Model.C10_history Proofs.C10_ls Proofs.C10_als_proofs Proofs.C10_funksvd_proofs Proofs.C10_history_proofs Proofs.C10_order.
 Import ListNotations.
 Module NE := LK.Proofs.C10_normal_eq.
 
@@ -323,6 +327,43 @@ Theorem clamps_agree : forall lo hi e : Q, lo <= hi ->
   clamp_loop q_arith (Some (lo, hi)) e = clamp_np q_arith (Some (lo, hi)) e.
 Proof. exact clamps_agree_Q. Qed.
 Print Assumptions clamps_agree.
+
+(* "over the seeded sample order".  `stored` = the rating matrix in its stored order, `order` = the shuffle of
+   0..n-1 drawn from the generator the seed stands for (NumPy's draw, repeated by the harness on an equal generator:
+   for TrainingOptions() under lenskit.random.set_global_rng(seed), on a generator equal to the installed one).
+   An accepted order visits every stored rating exactly once per pass; training over it is feature-wise SGD
+   (every arithmetic instance); the case files evaluate exactly this
+   (funksvd_seeded_agree = seeded_ok with the bit-for-bit float run over `in_order stored order` as the check). *)
+Theorem seeded_order_visits_every_sample_once : forall (A : Type) (d : A) stored order,
+  is_order (length stored) order = true ->
+  Permutation (in_order d stored order) stored /\ length (in_order d stored order) = length stored.
+Proof. exact @in_order_visits_once. Qed.
+Print Assumptions seeded_order_visits_every_sample_once.
+
+Theorem seeded_training_is_featurewise_sgd : forall (Ar : arith) p nfeat nusers nitems (d : sample Ar) stored order f,
+  (lt f nfeat) -> is_order (length stored) order = true ->
+  let smps := in_order d stored order in
+  Permutation smps stored /\
+  nth_error (train_cols Ar p nfeat nusers nitems nfeat smps) f = Some (proj Ar f (train Ar p nfeat nusers nitems smps)).
+Proof. exact seeded_train_is_featurewise. Qed.
+Print Assumptions seeded_training_is_featurewise_sgd.
+
+Theorem seeded_agree_checks : forall (A : Type) (d : A) agree stored order,
+  seeded_ok d agree stored order = true <->
+  is_order (length stored) order = true /\ agree (in_order d stored order) = true.
+Proof. exact @seeded_ok_spec. Qed.
+Print Assumptions seeded_agree_checks.
+
+(* the order is not a formality: an index missing / repeated / out of range is rejected, and the same two ratings
+   visited in the two possible orders leave different features *)
+Example c10_order_nonvacuous :
+  is_order 3 [2; 0; 1]%nat = true /\ is_order 3 [2; 0; 0]%nat = false /\ is_order 3 [0; 1; 3]%nat = false /\
+  let p : params q_arith := Build_params q_arith 1 (1 # 10) (1 # 100) None (1 # 10) in
+  let stored : list (sample q_arith) := [(0%nat, 0%nat, 4, 3); (0%nat, 1%nat, 2, 3)] in
+  let a := train q_arith p 1 1 2 (in_order (0%nat, 0%nat, 0, 0) stored [0; 1]%nat) in
+  let b := train q_arith p 1 1 2 (in_order (0%nat, 0%nat, 0, 0) stored [1; 0]%nat) in
+  Qeq_bool (get2 q_arith (fst a) 0 0) (get2 q_arith (fst b) 0 0) = false.
+Proof. cbv zeta. repeat split; vm_compute; reflexivity. Qed.
 
 (* ------------------------------------------------------------------------------------------ *)
 (* non-vacuity: a two-user, two-item explicit half-step with an exactly solved row and a row
